@@ -243,6 +243,25 @@ pub fn pkcs8_private(der: &[u8]) -> Option<(Vec<u8>, Option<Vec<u8>>)> {
 }
 
 pub fn pkcs8_build(d: &[u8; 32], point: Option<&[u8]>) -> Vec<u8> {
+    pkcs8_build_raw(d, point)
+}
+
+/// Well-formed SEC1 ECPrivateKey with a privateKey field of ANY length (semantic faults).
+pub fn sec1_build_raw(d: &[u8], point: Option<&[u8]>, with_params: bool) -> Vec<u8> {
+    let mut sec1 = tlv(2, &[1]);
+    sec1.extend_from_slice(&tlv(4, d));
+    if with_params {
+        sec1.extend_from_slice(&tlv(0xa0, &tlv(6, OID_SM2)));
+    }
+    if let Some(p) = point {
+        let mut bits = vec![0u8];
+        bits.extend_from_slice(p);
+        sec1.extend_from_slice(&tlv(0xa1, &tlv(3, &bits)));
+    }
+    tlv(0x30, &sec1)
+}
+
+pub fn pkcs8_build_raw(d: &[u8], point: Option<&[u8]>) -> Vec<u8> {
     let mut sec1 = tlv(2, &[1]);
     sec1.extend_from_slice(&tlv(4, d));
     if let Some(p) = point {
